@@ -130,7 +130,7 @@ pub fn has_decision(tree: &Tree) -> bool {
 /// The valid-game universe of a tier, for checks whose cost per game is small
 pub fn eval_bounds(ctx: &Ctx) -> Bounds {
     if ctx.thorough() {
-        Bounds { max_internal: 4, max_arity: 3, max_leaves: 7, chance_infosets: true, degenerate: true }
+        Bounds { max_internal: 4, max_arity: 3, max_leaves: 5, chance_infosets: true, degenerate: true }
     } else {
         Bounds { max_internal: 3, max_arity: 3, max_leaves: 5, chance_infosets: true, degenerate: true }
     }
